@@ -705,9 +705,14 @@ def generate(unit_dir, vacuity=False, mutate=None):
                         inserts.append((im.end(), '__inline__' + am.group(2) + ': ', tl))
                 elif kind in ('before', 'after'):
                     rx = arg
+                    occ = 1
+                    om = re.match(r'(\d+):(/.*)$', rx)
+                    if om:
+                        occ, rx = int(om.group(1)), om.group(2)
                     if len(rx) >= 2 and rx[0] == '/' and rx[-1] == '/':
                         rx = rx[1:-1]
-                    mm = re.search(rx, text, re.M)
+                    ms_all = list(re.finditer(rx, text, re.M))
+                    mm = ms_all[occ - 1] if len(ms_all) >= occ else None
                     if not mm:
                         # a proof hint whose anchor statement changed is dropped (the obligation is then
                         # attempted without it) -- never a reason to stop looking at a changed function
